@@ -63,7 +63,8 @@ func (db DB) String() string {
 type DBOpts struct {
 	U Universe
 	// Shape: "dense" (every series has every label), "sparse" (random label subsets),
-	// "single" (one series per metric, random subset), "shared" (all metrics share the same sparse label sets);
+	// "single" (one series per metric, random subset), "shared" (all metrics share the same sparse label sets),
+	// "one" (every metric has exactly one series and all of them carry the same label set - every join matches);
 	// "" = drawn.
 	Shape string
 	// FullLabels forces every series to carry every universe label with a non-empty value (C12's domain).
@@ -79,7 +80,7 @@ func GenDB(t *rapid.T, label string, o DBOpts) DB {
 	n := func(k int, l string) int { return rapid.IntRange(0, k-1).Draw(t, label+"."+l) }
 	shape := o.Shape
 	if shape == "" {
-		shape = []string{"dense", "sparse", "single", "shared"}[n(4, "shape")]
+		shape = []string{"dense", "sparse", "single", "shared", "one"}[n(5, "shape")]
 	}
 	full := o.FullLabels || shape == "dense"
 	genSet := func(l string) map[string]string {
@@ -125,6 +126,8 @@ func GenDB(t *rapid.T, label string, o DBOpts) DB {
 		switch shape {
 		case "single":
 			add(m, genSet(l+".own"), l)
+		case "one":
+			add(m, pool[0], l)
 		case "shared":
 			for i, ls := range pool {
 				if n(4, fmt.Sprintf("%s.use%d", l, i)) > 0 {
